@@ -1,7 +1,7 @@
 (* C17, the JSON leg: the tree the runtime's mark calls write is the canonical encoding of rt_defs, the
    emulator-side reader gives rt_defs back, the composition runtime -> stream.json -> merged types, what
-   hand-made metadata the reader refuses (and what it does not), user attributes do not interfere, and the
-   (int) truncation of label values in the PCF. *)
+   hand-made metadata the reader refuses (and what it does not), user attributes do not interfere, the PCF sections
+   for all int64 label values, and the (int) truncation of label values of the code before the repair. *)
 From OV Require Import Base.CInt Emu.LoaderMetaDefs Emu.VersionDefs Emu.MarkDefs Proofs.MarkProofs Rt.RtMetaDefs Rt.MarkJsonDefs
   Proofs.RtMetaProofs.
 From Coq Require Import ZifyBool.
@@ -721,7 +721,7 @@ Proof.
   intros ts fs ms kv I P M B.
   assert (N : parse_mark_json (jobj fs) = None) by (eapply bad_entry_refused; eauto using bad_member_refused).
   assert (E : emu_types_of_trees ts = None) by (eapply bad_thread_refused; eauto).
-  split; [exact N|]. split; [exact E|]. unfold emu_pcf_of_trees. rewrite E. reflexivity.
+  split; [exact N|]. split; [exact E|]. unfold emu_pcf_of_trees, emu_pcf_of_trees_with. rewrite E. reflexivity.
 Qed.
 
 (* what mark.c does NOT refuse: an "ovni.mark" that is not an object counts as "no marks in this thread" *)
@@ -731,9 +731,8 @@ Proof.
   intros fs v P N. unfold parse_mark_json. rewrite P. destruct v; try reflexivity. exfalso. eapply N. reflexivity.
 Qed.
 
-(* ------------------------------------------------------------------ the PCF: (int) value *)
-Definition int_label (p : Z * MarkDefs.str) : Prop := - 2 ^ 31 <= fst p < 2 ^ 31.
-Definition good_labels (ls : list (Z * MarkDefs.str)) : Prop := NoDup (map fst ls) /\ Forall int_label ls.
+(* ------------------------------------------------------------------ the PCF (int64 values since the repair) *)
+Definition good_labels (ls : list (Z * MarkDefs.str)) : Prop := NoDup (map fst ls).
 
 Lemma lookup_none_notin l v : lookup_label l v = None -> ~ In v (map fst l).
 Proof.
@@ -747,14 +746,12 @@ Proof.
   intros H. destruct (v' =? v) eqn:E; [exfalso; apply H; left; lia|]. apply IH. tauto.
 Qed.
 
-Lemma pcf_values_id ls : forall acc, NoDup (map fst (acc ++ ls)) -> Forall int_label ls -> pcf_values acc ls = Some (acc ++ ls).
+Lemma pcf_values_id ls : forall acc, NoDup (map fst (acc ++ ls)) -> pcf_values_with no_cast acc ls = Some (acc ++ ls).
 Proof.
-  induction ls as [|[v s] r IH]; intros acc N F; cbn [pcf_values].
+  induction ls as [|[v s] r IH]; intros acc N; cbn [pcf_values_with].
   - rewrite app_nil_r. reflexivity.
-  - inversion F as [|x y Fa Fr]; subst. unfold int_label in Fa. cbn [fst] in Fa.
-    assert (C : cast_int32 v = v) by (apply wraps_small; lia). rewrite C.
-    rewrite existsb_notin.
-    + rewrite IH; [rewrite <- app_assoc; reflexivity| |exact Fr]. rewrite <- app_assoc. exact N.
+  - unfold no_cast at 1 2. rewrite existsb_notin.
+    + rewrite IH; [rewrite <- app_assoc; reflexivity|]. rewrite <- app_assoc. exact N.
     + rewrite map_app in N. cbn [map fst] in N. apply NoDup_remove_2 in N. intros X. apply N. apply in_or_app. left. exact X.
 Qed.
 
@@ -767,19 +764,17 @@ Proof.
     + apply IH. intros X. apply H. right. exact X.
 Qed.
 
-Lemma merge_labels_good new : forall have r, good_labels have -> Forall int_label new -> merge_labels have new = Some r -> good_labels r.
+Lemma merge_labels_good new : forall have r, good_labels have -> merge_labels have new = Some r -> good_labels r.
 Proof.
-  induction new as [|[v s] new IH]; intros have r G F H; cbn [merge_labels] in H.
+  induction new as [|[v s] new IH]; intros have r G H; cbn [merge_labels] in H.
   - injection H as <-. exact G.
-  - inversion F as [|x y Fa Fr]; subst. destruct (lookup_label have v) as [s'|] eqn:L.
+  - destruct (lookup_label have v) as [s'|] eqn:L.
     + destruct (str_eqb s s'); [|discriminate]. eapply IH; eauto.
-    + eapply IH; [|exact Fr|exact H]. destruct G as [N A]. split.
-      * rewrite map_app. cbn [map fst]. apply NoDup_app_one; [exact N|apply lookup_none_notin; exact L].
-      * apply Forall_app. split; [exact A|]. constructor; [exact Fa|constructor].
+    + eapply IH; [|exact H]. unfold good_labels. rewrite map_app. cbn [map fst].
+      apply NoDup_app_one; [exact G|apply lookup_none_notin; exact L].
 Qed.
 
 Definition good_mt (m : mtype) : Prop := good_labels (mt_labels m).
-Definition int_def (d : mdef) : Prop := Forall int_label (md_labels d).
 
 Lemma find_mt_in acc t m : find_mt acc t = Some m -> In m acc.
 Proof.
@@ -794,43 +789,42 @@ Proof.
   destruct (mt_type d =? mt_type m); constructor; assumption.
 Qed.
 
-Lemma merge_def_good acc d acc' : Forall good_mt acc -> int_def d -> merge_def acc d = Some acc' -> Forall good_mt acc'.
+Lemma merge_def_good acc d acc' : Forall good_mt acc -> merge_def acc d = Some acc' -> Forall good_mt acc'.
 Proof.
-  intros F I H. unfold merge_def in H. destruct (_ || _); [discriminate|].
+  intros F H. unfold merge_def in H. destruct (_ || _); [discriminate|].
   destruct (find_mt acc (md_type d)) as [m|] eqn:E.
   - destruct (negb (str_eqb _ _)); [discriminate|]. destruct (negb (Bool.eqb _ _)); [discriminate|].
     destruct (merge_labels (mt_labels m) (md_labels d)) as [ls|] eqn:L; [|discriminate]. injection H as <-.
     apply replace_mt_good; [exact F|]. unfold good_mt. cbn [mt_labels].
-    eapply merge_labels_good; [|exact I|exact L]. apply find_mt_in in E. rewrite Forall_forall in F. exact (F m E).
+    eapply merge_labels_good; [|exact L]. apply find_mt_in in E. rewrite Forall_forall in F. exact (F m E).
   - destruct (merge_labels [] (md_labels d)) as [ls|] eqn:L; [|discriminate]. injection H as <-.
     apply Forall_app. split; [exact F|]. constructor; [|constructor]. unfold good_mt. cbn [mt_labels].
-    eapply merge_labels_good; [|exact I|exact L]. split; [constructor|constructor].
+    eapply merge_labels_good; [|exact L]. constructor.
 Qed.
 
-Lemma merge_defs_good ds : forall acc acc', Forall good_mt acc -> Forall int_def ds -> merge_defs acc ds = Some acc' -> Forall good_mt acc'.
+Lemma merge_defs_good ds : forall acc acc', Forall good_mt acc -> merge_defs acc ds = Some acc' -> Forall good_mt acc'.
 Proof.
-  induction ds as [|d r IH]; intros acc acc' F I H; cbn [merge_defs] in H.
+  induction ds as [|d r IH]; intros acc acc' F H; cbn [merge_defs] in H.
   - injection H as <-. exact F.
-  - inversion I as [|x y Id Ir]; subst. destruct (merge_def acc d) as [a1|] eqn:E; [|discriminate].
-    eapply IH; [|exact Ir|exact H]. eapply merge_def_good; eauto.
+  - destruct (merge_def acc d) as [a1|] eqn:E; [|discriminate].
+    eapply IH; [|exact H]. eapply merge_def_good; eauto.
 Qed.
 
 Lemma pcf_section_good m : good_mt m -> pcf_section m = Some (100 + mt_type m, mt_title m, mt_labels m).
 Proof.
-  intros [N A]. unfold pcf_section.
-  assert (X : pcf_values [] (mt_labels m) = Some (mt_labels m)) by exact (pcf_values_id (mt_labels m) [] N A).
+  intros N. unfold pcf_section, pcf_section_with.
+  assert (X : pcf_values_with no_cast [] (mt_labels m) = Some (mt_labels m)) by exact (pcf_values_id (mt_labels m) [] N).
   rewrite X. reflexivity.
 Qed.
 
-(* label values that are ints: the PCF sections carry exactly the merged titles and labels *)
+(* the PCF sections carry exactly the merged titles and labels, whatever the (int64) label values *)
 Theorem pcf_labels_as_merged : forall dss ms,
-  Forall (Forall int_def) dss -> merge_threads dss = Some ms ->
+  merge_threads dss = Some ms ->
   pcf_of_types ms = Some (map (fun m => (100 + mt_type m, mt_title m, mt_labels m)) ms).
 Proof.
-  intros dss ms I H. unfold merge_threads in H.
-  assert (G : Forall good_mt ms).
-  { eapply merge_defs_good; [constructor| |exact H]. clear H. induction I as [|x r Hx I IH]; cbn [concat]; [constructor|]. apply Forall_app. split; assumption. }
-  unfold pcf_of_types. clear H I. induction G as [|m r Hm G IH]; [reflexivity|].
+  intros dss ms H. unfold merge_threads in H.
+  assert (G : Forall good_mt ms) by (eapply merge_defs_good; [constructor|exact H]).
+  unfold pcf_of_types, pcf_of_types_with. fold pcf_section. clear H. induction G as [|m r Hm G IH]; [reflexivity|].
   cbn [map all_some]. rewrite (pcf_section_good m Hm), IH. reflexivity.
 Qed.
 
@@ -944,22 +938,19 @@ Proof.
     replace (b1 ++ concat (map rt_defs f2) ++ a2 ++ d2 :: b2 ++ concat (map rt_defs f3))
       with ((b1 ++ concat (map rt_defs f2) ++ a2) ++ d2 :: (b2 ++ concat (map rt_defs f3))) by (rewrite <- !app_assoc; reflexivity).
     apply conflicting_definitions_refused; assumption. }
-  split; [exact N|]. unfold emu_pcf_of_trees. rewrite N. reflexivity.
+  split; [exact N|]. unfold emu_pcf_of_trees, emu_pcf_of_trees_with. rewrite N. reflexivity.
 Qed.
 
-(* B.2, labels: when every registered label value is an int, the PCF sections of the trace the runtime wrote carry the
-   merged titles and labels *)
+(* B.2, labels: the PCF sections of the trace the runtime wrote carry the merged titles and labels, for all label values *)
 Theorem compose_pcf_through_json : forall ths finals ms,
   Forall thread_ok ths ->
   Forall2 (fun p s => rt_calls rtm_init (snd p) = Ret s) ths finals ->
-  Forall (fun s => Forall int_def (rt_defs s)) finals ->
   merge_threads (map rt_defs finals) = Some ms ->
   exists trees, Forall2 (fun p fs => tree_calls (fst p) (snd p) = Some fs) ths trees /\
     emu_pcf_of_trees (map jobj trees) = Some (map (fun m => (100 + mt_type m, mt_title m, mt_labels m)) ms).
 Proof.
-  intros ths finals ms O R I M. destruct (compose_through_json ths finals O R) as (trees & F & _ & E). exists trees. split; [exact F|].
-  unfold emu_pcf_of_trees. rewrite E, M. apply (pcf_labels_as_merged (map rt_defs finals)); [|exact M].
-  clear -I. induction I as [|s r Hs I IH]; cbn [map]; constructor; assumption.
+  intros ths finals ms O R M. destruct (compose_through_json ths finals O R) as (trees & F & _ & E). exists trees. split; [exact F|].
+  unfold emu_pcf_of_trees, emu_pcf_of_trees_with. rewrite E, M. apply (pcf_labels_as_merged (map rt_defs finals)). exact M.
 Qed.
 
 (* ------------------------------------------------------------------ examples and the finding *)
@@ -1020,22 +1011,34 @@ Example ex_odd_accepted :
   emu_types_of_trees [jobj [(k_ovni, jobj [(k_mark, jarr [])])]] = Some [].
 Proof. repeat split; vm_compute; reflexivity. Qed.
 
-(* THE FINDING (C17 "with the labels registered for the type"): label values are int64 at run time, the PCF takes (int) value.
-   (a) two labels of one type whose values agree modulo 2^32: every call is accepted, the merge succeeds, the emulator fails
-       in pcf_add_value;
-   (b) one label for 2^32+5: the trace is accepted, the label is filed under 5, the value written to the row has none *)
+(* THE FINDING label-value-truncated-to-int, REPAIRED (C17 "with the labels registered for the type"): label values are int64
+   at run time; before the repair the PCF took (int) value (the *_old model):
+   (a) two labels of one type whose values agree modulo 2^32: every call is accepted, the merge succeeds, the old emulator
+       failed in pcf_add_value;
+   (b) one label for 2^32+5: the old emulator filed the label under 5, the value written to the row had none *)
 Definition ex_big_a : list mcall := [MType 3 false (Some sP); MLabel 3 5 (Some sA); MLabel 3 4294967301 (Some sB); MSet 3 5; MSet 3 4294967301].
 Definition ex_big_b : list mcall := [MType 3 false (Some sP); MLabel 3 4294967301 (Some sB); MSet 3 4294967301].
 
-Theorem labels_beyond_int_refuted :
+Theorem labels_beyond_int_refuted_old :
   (exists cs s fs, forallb call_typed cs = true /\ forallb call_fits cs = true /\ rt_calls rtm_init cs = Ret s /\
      tree_calls ex_base cs = Some fs /\ parse_mark_json (jobj fs) = Some (rt_defs s) /\
-     emu_types_of_trees [jobj fs] <> None /\ emu_pcf_of_trees [jobj fs] = None) /\
+     emu_types_of_trees [jobj fs] <> None /\ emu_pcf_of_trees_old [jobj fs] = None) /\
   (exists cs s fs secs, forallb call_typed cs = true /\ forallb call_fits cs = true /\ rt_calls rtm_init cs = Ret s /\
      tree_calls ex_base cs = Some fs /\ In (61, 4294967301, 3) (rt_events s) /\
-     emu_pcf_of_trees [jobj fs] = Some secs /\ pcf_label secs 103 4294967301 = None /\ pcf_label secs 103 5 = Some sB).
+     emu_pcf_of_trees_old [jobj fs] = Some secs /\ pcf_label secs 103 4294967301 = None /\ pcf_label secs 103 5 = Some sB).
 Proof.
   split.
   - exists ex_big_a. eexists. eexists. repeat split; try (vm_compute; reflexivity). vm_compute. discriminate.
   - exists ex_big_b. eexists. eexists. eexists. repeat split; try (vm_compute; reflexivity). vm_compute. tauto.
+Qed.
+
+(* the witness programs on the repaired code: both labels under type 103, each under its own value *)
+Example ex_big_repaired :
+  emu_pcf_of_trees [jobj (ex_tree ex_big_a)] = Some [(103, sP, [(5, sA); (4294967301, sB)])] /\
+  emu_pcf_of_trees [jobj (ex_tree ex_big_b)] = Some [(103, sP, [(4294967301, sB)])] /\
+  (forall secs, emu_pcf_of_trees [jobj (ex_tree ex_big_a)] = Some secs ->
+     pcf_label secs 103 5 = Some sA /\ pcf_label secs 103 4294967301 = Some sB).
+Proof.
+  split; [vm_compute; reflexivity|]. split; [vm_compute; reflexivity|].
+  intros secs H. vm_compute in H. injection H as <-. split; vm_compute; reflexivity.
 Qed.
